@@ -65,6 +65,45 @@ pub fn vx_patch_u16(c: &mut BytesMut, pos: usize, v: u16)
     (&mut c.as_mut()[pos..pos + 2]).write_u16::<NetworkEndian>(v).unwrap();
 }
 
+// ---- a generic `B: BufMut + AsMut<[u8]>` destination: length and in-place patches (R11 helpers) ---------------
+/// `dst.as_mut().len()`: the number of bytes written so far (a slice length: at most isize::MAX)
+#[verifier::external_body]
+pub fn vx_buf_len<B: BufMut + AsMut<[u8]>>(dst: &mut B) -> (r: usize)
+    ensures r == (*old(dst)).bytes().len(), r <= isize::MAX as usize, (*final(dst)).bytes() == (*old(dst)).bytes(),
+{ dst.as_mut().len() }
+/// `(&mut dst.as_mut()[pos..]).write_u16::<NetworkEndian>(v).unwrap()` on the generic destination
+#[verifier::external_body]
+pub fn vx_buf_patch_u16<B: BufMut + AsMut<[u8]>>(dst: &mut B, pos: usize, v: u16)
+    requires pos + 2 <= (*old(dst)).bytes().len(),
+    ensures
+        (*final(dst)).bytes().len() == (*old(dst)).bytes().len(),
+        (*final(dst)).bytes() == (*old(dst)).bytes().subrange(0, pos as int) + be16(v) + (*old(dst)).bytes().subrange(pos + 2, (*old(dst)).bytes().len() as int),
+{
+    use byteorder::{NetworkEndian, WriteBytesExt};
+    (&mut dst.as_mut()[pos..]).write_u16::<NetworkEndian>(v).unwrap();
+}
+#[verifier::external_body]
+pub fn vx_buf_patch_u8<B: BufMut + AsMut<[u8]>>(dst: &mut B, pos: usize, v: u8)
+    requires pos + 1 <= (*old(dst)).bytes().len(),
+    ensures
+        (*final(dst)).bytes().len() == (*old(dst)).bytes().len(),
+        (*final(dst)).bytes() == (*old(dst)).bytes().update(pos as int, v),
+{
+    use byteorder::WriteBytesExt;
+    (&mut dst.as_mut()[pos..]).write_u8(v).unwrap();
+}
+/// `dst.put_bytes(0, n)`: n zero bytes
+#[verifier::external_body]
+pub fn vx_put_zeros<B: BufMut>(dst: &mut B, n: usize)
+    ensures (*final(dst)).bytes() == (*old(dst)).bytes() + Seq::new(n as nat, |i: int| 0u8),
+{ dst.put_bytes(0, n); }
+
+/// Vec<u8>'s BufMut implementation appends to the vector (assumed: bytes crate)
+impl BufMutSpecImpl for Vec<u8> {
+    open spec fn bytes(&self) -> Seq<u8> { self@ }
+}
+
+
 #[verifier::external_type_specification]
 #[verifier::external_body]
 pub struct ExIoError(std::io::Error);
